@@ -111,3 +111,13 @@ Theorem backtick_memo_unscanned_same :
     scan_to_closing_backtick true inp s otl = scan_to_closing_backtick false inp s otl.
 Proof. exact backtick_memo_unscanned. Qed.
 Print Assumptions backtick_memo_unscanned_same.
+
+(* ---- reference definitions (parse_reference_inline of parser/mod.rs, modelled for the tie's reference map) ----
+   the model reproduces a defect of the implementation: when the title stands on the next line and is followed by
+   other text, the line is given back to the paragraph but the definition keeps the title
+   (content: [a]: /u NEWLINE "t" junk NEWLINE  ->  rest = "t" junk, entry a -> (/u, t)). *)
+Theorem refdef_title_kept_witness :
+  refdefs (map to_lower_ascii) refdef_witness
+  = Ok ([x22; x74; x22; x20; x6a; x75; x6e; x6b; x0a], [([x61], ([x2f; x75], [x74]))]).
+Proof. exact refdef_title_kept_lemma. Qed.
+Print Assumptions refdef_title_kept_witness.
